@@ -760,6 +760,13 @@ func c10Panics(c *Ctx, scope map[*ssa.Function]bool) {
 					if k, ok := cst.X.(*ssa.Const); ok && k.Value != nil && strings.Contains(k.Value.ExactString(), "blocking select matched no case") {
 						return // compiler-generated, unreachable
 					}
+					// the state checks go/ssa emits for a range-over-func loop (`for x := range set.RangeWhile`): they have no
+					// source position and fire only if the iterator misuses its yield function, which the iterators of the
+					// module (called synchronously, yield never retained) do not
+					if k, ok := cst.X.(*ssa.Const); ok && k.Value != nil && !x.Pos().IsValid() &&
+						(strings.Contains(k.Value.ExactString(), "iterator call did not preserve panic") || strings.Contains(k.Value.ExactString(), "yield function called after range loop exit")) {
+						return
+					}
 				}
 				sites = append(sites, site{shortName(declaredParent(fn)), p.InstrPos(in), "panic"})
 			case *ssa.TypeAssert:
